@@ -60,6 +60,9 @@ def run(name, tier="quick", modes="native"):
     rc, out = sh(["git", "apply", os.path.join(dst, "patch.diff")], cwd="/repo")
     assert rc == 0, out
     t0 = time.time()
+    # the evidence file describes the unchanged tree: keep it out of the way of a run against a changed one
+    ev = os.path.join(V, "evidence", pid + ".json")
+    keep = open(ev).read() if os.path.exists(ev) else None
     try:
         cmd = [os.path.join(V, "check"), pid, "--tier", tier]
         if modes:
@@ -67,6 +70,8 @@ def run(name, tier="quick", modes="native"):
         rc, out = sh(cmd, cwd=V, timeout=7200)
     finally:
         sh(["git", "checkout", "--", "."], cwd="/repo")
+        if keep is not None:
+            open(ev, "w").write(keep)
     sigs = [l.split("signature: ")[1] for l in out.splitlines() if "signature: " in l]
     detected = rc == 1 and "VIOLATION" in out
     rec = {"check": f"./check {pid} --tier {tier}" + (f" --modes {modes}" if modes else ""), "exit": rc, "detected": detected, "signatures": sigs[:8], "wall_s": round(time.time() - t0, 1)}
